@@ -228,6 +228,9 @@ type goWriter struct {
 	key   string
 }
 
+// errSkipped: Set returned successfully without creating a temporary file (it did not touch the directory)
+var errSkipped = errors.New("Set returned without writing")
+
 func (w *goWriter) begin(url string, wn string, j int) error {
 	w.g = &gate{arrive: make(chan hookEv), resume: make(chan struct{}), done: make(chan error, 1)}
 	started := make(chan struct{})
@@ -238,7 +241,22 @@ func (w *goWriter) begin(url string, wn string, j int) error {
 		w.g.done <- w.cache.Set(context.Background(), url, jobBundle(wn, j, 0))
 	}()
 	<-started
-	return w.wait("created")
+	select {
+	case ev := <-w.g.arrive:
+		if ev.point != "created" {
+			return fmt.Errorf("writer arrived at %q, expected %q", ev.point, "created")
+		}
+		return nil
+	case err := <-w.g.done:
+		gateReg.Delete(w.key)
+		w.g = nil
+		if err == nil {
+			return errSkipped
+		}
+		return fmt.Errorf("Set returned (%v) while expecting hook point %q", err, "created")
+	case <-time.After(20 * time.Second):
+		return fmt.Errorf("timeout waiting for %q", "created")
+	}
 }
 
 func (w *goWriter) wait(expect string) error {
@@ -428,9 +446,16 @@ func runCRLSchedules() int {
 	fn := func(c rawCase) []traceLine {
 		var in SchedIn
 		must(json.Unmarshal(c.In, &in))
+		// goroutine: all writers share one FileCache; process: every Set is a process of its own; instances: every writer
+		// is a goroutine with a FileCache of its own (as separate long-lived processes have) and stores the SAME content in each of
+		// its Sets (as a verifier re-fetching an unchanged CRL does)
 		mode := "goroutine"
-		if mix(*flagSeed, c.ID, "mode")%3 == 0 {
+		m := mix(*flagSeed, c.ID, "mode") % 4
+		switch {
+		case m == 0:
 			mode = "process"
+		case m == 1 || (m == 2 && in.Config == "w2s2"):
+			mode = "instances"
 		}
 		lines := replaySchedule(c.ID, in, mode)
 		mu.Lock()
@@ -463,6 +488,8 @@ func replaySchedule(id int, in SchedIn, mode string) []schedLine {
 	urls := []string{"u1", "u2"}
 	lines := []schedLine{{ID: id, K: 0, Mode: mode, Act: "Reset", In: &in}}
 	writers := map[string]writerHandle{}
+	inst := map[string]*crl.FileCache{}
+	skipped := map[string]bool{}
 	jobs := map[string]int{}
 	readerURL := map[string]string{}
 	var all []writerHandle
@@ -474,18 +501,36 @@ func replaySchedule(id int, in SchedIn, mode string) []schedLine {
 	for k, st := range in.Steps {
 		line := schedLine{ID: id, K: k + 1, Mode: mode, Actor: st.Actor, Act: st.Act, Arg: st.Arg}
 		var serr error
+		if skipped[st.Actor] && st.Act != "WBegin" {
+			continue // this Set has returned already (see WSkip)
+		}
 		switch st.Act {
 		case "WBegin":
 			var h writerHandle
-			if mode == "process" {
+			jobs[st.Actor]++
+			jn := jobs[st.Actor]
+			switch mode {
+			case "process":
 				h = &procWriter{root: root}
-			} else {
+			case "instances":
+				if inst[st.Actor] == nil {
+					inst[st.Actor], err = crl.NewFileCache(root)
+					must(err)
+				}
+				h = &goWriter{cache: inst[st.Actor], root: root}
+				jn = 0 // the same bundle every time
+			default:
 				h = &goWriter{cache: cache, root: root}
 			}
 			writers[st.Actor] = h
 			all = append(all, h)
-			jobs[st.Actor]++
-			serr = h.begin(urlOf[st.Arg], st.Actor, jobs[st.Actor])
+			skipped[st.Actor] = false
+			serr = h.begin(urlOf[st.Arg], st.Actor, jn)
+			if serr == errSkipped {
+				// the store returned without touching the directory: judged by the spec (allowed only when the entry
+				// already is this content)
+				serr, line.Act, skipped[st.Actor] = nil, "WSkip", true
+			}
 		case "WWrite":
 			serr = writers[st.Actor].step("written")
 		case "WClose":
